@@ -22,7 +22,8 @@ pub struct Case {
 pub struct LongHaul {
     pub rounds: u32,
     /// 0 while inside the taken branch of if/else, an else-less if in its body; 1 while inside while; 2 for-in over a
-    /// range inside if/else; 3 (functions) a function called once per round
+    /// range inside if/else; 3 (functions) a function called once per round; 4 (functions) a function that returns
+    /// from inside two nested for-in loops, called once per round of a while inside a for-in
     pub shape: u8,
 }
 
@@ -31,6 +32,7 @@ fn long_haul_text(l: &LongHaul) -> String {
         0 => "if true\n    while cnd 0 false\n        if true\n            x1 = set b\n        end\n    end\nelse\n    emit else-taken\nend\nemit after\n".to_string(),
         1 => "while cnd 1 false\n    while cnd 0 false\n        x1 = set b\n    end\nend\nemit after\n".to_string(),
         2 => format!("r = range 0 {}\nif true\n    for i in ${{r}}\n        if true\n            x1 = set b\n        end\n    end\nelse\n    emit else-taken\nend\nrelease ${{r}}\nemit after\n", l.rounds),
+        4 => "rows = array b r2\ncols = array a c d\njobs = array job1\nfn find\n    for x in ${rows}\n        for y in ${cols}\n            if equals ${y} ${1}\n                return ${x}\n            end\n        end\n    end\nend\nfor job in ${jobs}\n    while cnd 0 false\n        x1 = find a\n    end\nend\nemit after\n".to_string(),
         _ => "fn f0\n    if true\n        x1 = set b\n    end\n    return ${1}\nend\nwhile cnd 0 false\n    x2 = f0 v\nend\nemit after\n".to_string(),
     }
 }
@@ -80,8 +82,10 @@ pub struct Structured {
 pub static C04: Structured = Structured { functions: false };
 pub static C05: Structured = Structured { functions: true };
 
-pub fn run_and_compare(p: &Program) -> Verdict {
-    let m = match gen::Interp::new(p).run() {
+pub fn run_and_compare(p: &Program, strict_cond_errors: bool) -> Verdict {
+    let mut interp = gen::Interp::new(p);
+    interp.strict_cond_errors = strict_cond_errors;
+    let m = match interp.run() {
         Ok(m) => m,
         Err(gen::Stop::Inconclusive(r)) => return Verdict::Inconclusive { reason: r },
     };
@@ -168,17 +172,17 @@ impl Prop for Structured {
             ..Default::default()
         };
         let program = gen::generate_program(rng, &opts);
-        let long = if rng.chance(1, 15_000) { Some(LongHaul { rounds: 70_000 + rng.below(60_000) as u32, shape: if self.functions { 3 } else { rng.below(3) as u8 } }) } else { None };
+        let long = if rng.chance(1, 15_000) { Some(LongHaul { rounds: 70_000 + rng.below(60_000) as u32, shape: if self.functions { 3 + rng.below(2) as u8 } else { rng.below(3) as u8 } }) } else { None };
         serde_json::to_value(Case { entropy: rng.next_u64(), program, long }).unwrap()
     }
-    fn execute(&self, case: &Value, _env: &WorkerEnv) -> Outcome {
+    fn execute(&self, case: &Value, env: &WorkerEnv) -> Outcome {
         let case: Case = match serde_json::from_value(case.clone()) {
             Ok(c) => c,
             Err(e) => return Outcome::collect(Verdict::Inconclusive { reason: format!("bad case: {}", e) }, false),
         };
         let verdict = match &case.long {
             Some(l) => run_long_haul(l),
-            None => run_and_compare(&case.program),
+            None => run_and_compare(&case.program, self.functions && !env.avoid.iter().any(|a| a == "error_inside_condition_call")),
         };
         Outcome::collect(verdict, false)
     }
@@ -211,6 +215,8 @@ impl Prop for Structured {
         match matcher {
             "return_or_call_inside_forin_body" => gen::has_return_or_call_in_forin(&case.program),
             "fullname_else" => gen::uses_fullname_else(&case.program),
+            // a Fail statement in the body of a function that is called in condition position somewhere
+            "error_inside_condition_call" => gen::has_fail_in_condition_called_function(&case.program),
             _ => false,
         }
     }
